@@ -277,7 +277,26 @@ namespace Pistache::Http::Mime
         }
     }
 
-    void MediaType::setQuality(Q quality) { q_ = quality; }
+    void MediaType::setQuality(Q quality)
+    {
+        q_ = quality;
+        refreshRaw();
+    }
+
+    // A parsed value writes itself as the text it was parsed from. Once its quality or a
+    // parameter has been set that text no longer describes it: type, subtype and suffix are
+    // kept as written, the quality and the parameters are written anew.
+    void MediaType::refreshRaw()
+    {
+        if (raw_.empty())
+            return;
+        std::string text = raw_.substr(0, raw_.find_first_of("; "));
+        if (q_.has_value())
+            text += "; " + q_->toString();
+        for (const auto& param : params)
+            text += "; " + param.first + "=" + param.second;
+        raw_ = std::move(text);
+    }
 
     std::optional<std::string> MediaType::getParam(const std::string& name) const
     {
@@ -293,6 +312,7 @@ namespace Pistache::Http::Mime
     void MediaType::setParam(const std::string& name, std::string value)
     {
         params[name] = std::move(value);
+        refreshRaw();
     }
 
     std::string MediaType::toString() const
